@@ -1,0 +1,32 @@
+//go:build verif
+
+// Contracts checked by /verif/govc (comment-only; compiled only with -tags verif).
+package cs
+
+// Coefficient table invariant every coefficient-id fast path relies on: ids 0..4 are 0, 1, 2, -1, -2
+// and every entry from id 2 on is non-zero (established by NewCoeffTable / AddCoeff; characteristic != 2).
+//@ spec func coeffOK(s *solver) bool = s.system != nil && len(s.Coefficients) >= 5 && s.Coefficients[0] == f0 && s.Coefficients[1] == f1 && s.Coefficients[2] == fadd(f1, f1) && s.Coefficients[3] == fneg(f1) && s.Coefficients[4] == fneg(fadd(f1, f1)) && (forall k int :: 2 <= k && k < len(s.Coefficients) ==> s.Coefficients[k] != f0)
+
+//@ spec func termOK(s *solver, t Term) bool = int(t.CID) < len(s.Coefficients) && (t.VID == 4294967295 || (int(t.VID) < len(s.values) && int(t.VID) < len(s.solved)))
+
+// value of a term under the current assignment: coefficient (constant term) or coefficient * wire value
+//@ spec func termVal(s *solver, t Term) F = t.VID == 4294967295 ? s.Coefficients[t.CID] : fmul(s.Coefficients[t.CID], s.values[t.VID])
+
+//@ contract (*solver).computeTerm
+//@   props C06
+//@   requires s != nil && coeffOK(s) && termOK(s, t)
+//@   panics-only-if t.VID != 4294967295 && t.CID != 0 && !s.solved[t.VID]
+//@   assigns
+//@   ensures @value result == termVal(s, t)
+
+//@ contract (*solver).accumulateInto
+//@   props C06
+//@   requires s != nil && r != nil && coeffOK(s) && termOK(s, t)
+//@   nopanic
+//@   ensures @accumulated *r == fadd(old(*r), old(termVal(s, t)))
+
+//@ contract (*solver).divByCoeff
+//@   props C06
+//@   requires solver != nil && res != nil && coeffOK(solver) && int(cID) < len(solver.Coefficients)
+//@   panics-only-if cID == 0
+//@   ensures @divided cID != 0 ==> fmul(*res, old(solver.Coefficients[cID])) == old(*res)
